@@ -270,28 +270,55 @@ func c18Run(wl c18Workload) (quiescent bool, calls map[string]int, err error) {
 		}
 		waitUntil(2*time.Second, func() bool { return w.env.MQTT.Subscribers(w.col+"/"+k.Name) >= i+1 })
 	}
+	// stuck: nothing is active any more (no call in flight, no notification queued, no background work, no
+	// goroutine of the client inside or about to enter a sync) for 3 s, but a client still holds an
+	// operation it has not pushed. The client library has no timers: nobody is ever going to push it.
+	stuck := -1
 	quiesce := func() bool {
 		stable := 0
-		return waitUntil(8*time.Second, func() bool {
-			busy := w.env.InFlight() > 0 || w.env.MQTT.QueuedForwards() > 0 || cluster.BackgroundBusy() ||
-				stackContains("syncPushPullPacks") || stackContains("ReceiveNotification")
-			if !busy {
-				for _, r := range cls {
-					if r.dt.NeedPush() {
-						busy = true
-					}
+		var idleSince time.Time
+		return waitUntil(12*time.Second, func() bool {
+			active := w.env.InFlight() > 0 || w.env.MQTT.QueuedForwards() > 0 || cluster.BackgroundBusy() ||
+				stackContains("syncPushPullPacks") || stackContains("ReceiveNotification") || stackContains("DeliverTransaction")
+			unpushed := -1
+			for i, r := range cls {
+				if r.dt.NeedPush() {
+					unpushed = i
 				}
 			}
-			if busy {
-				stable = 0
+			if active {
+				stable, idleSince = 0, time.Time{}
 				return false
 			}
+			if unpushed >= 0 {
+				stable = 0
+				if idleSince.IsZero() {
+					idleSince = time.Now()
+				}
+				if time.Since(idleSince) > 3*time.Second {
+					stuck = unpushed
+					return true
+				}
+				return false
+			}
+			idleSince = time.Time{}
 			stable++
 			return stable > 40 // ~ 10 ms of calm
 		})
 	}
+	stuckErr := func() error {
+		r := cls[stuck]
+		r.mu.Lock()
+		errs := append([]string{}, r.errs...)
+		r.mu.Unlock()
+		pack := r.dt.CreatePushPullPack()
+		return fmt.Errorf("realtime client %d holds %d operation(s) that it never pushes: for 3 s no call was in flight, no notification queued and no sync pending, and the client library has no timer that would push later (client errors: %v)", stuck, len(pack.Operations), errs)
+	}
 	if !quiesce() {
 		return false, calls, nil
+	}
+	if stuck >= 0 {
+		return true, calls, stuckErr()
 	}
 	for _, op := range wl.Ops {
 		r := cls[op.C%len(cls)]
@@ -305,6 +332,9 @@ func c18Run(wl c18Workload) (quiescent bool, calls map[string]int, err error) {
 	}
 	if !quiesce() {
 		return false, calls, nil
+	}
+	if stuck >= 0 {
+		return true, calls, stuckErr()
 	}
 	// quiescent => converged
 	log, _ := w.storedLogByKey(k.Name)
@@ -341,7 +371,7 @@ func (w *l1World) storedLogByKey(key string) ([]storedOp, error) {
 func testC18Realtime(t *testing.T, kind sim.Kind) {
 	col := stats.New("C18", t.Name(),
 		"2-4 REAL clients in REALTIME mode (gRPC on loopback through a proxy, MQTT through the in-process broker with drawn forward delays); after each has subscribed by itself they only perform drawn local operations at drawn pauses - no Sync call; "+
-			"the harness waits for quiescence (no RPC in flight, no notification queued, no background work, nothing to push, calm for ~10 ms) and then requires every client = refmodel(stored log); not reaching quiescence within 8 s makes the case inconclusive (skipped, counted), never a violation; "+
+			"the harness waits for quiescence (no RPC in flight, no notification queued, no background work, nothing to push, calm for ~10 ms) and then requires every client = refmodel(stored log); an operation that stays unpushed while nothing at all is active for 3 s is a violation (the client library has no timers, nobody will push it); otherwise not reaching quiescence within 12 s makes the case inconclusive (skipped, counted), never a violation; "+
 			"non-trivial = >=2 clients issued operations; distinct = hash of the workload (the schedule is sampled, not controlled)")
 	col.Assume("schedule coverage is sampled; convergence is checked in its safety form quiescent => converged")
 	checkProp(t, "C18", col, func(c *caseCtx) {
